@@ -26,7 +26,7 @@ RULE = (
     "edits a story that an earlier message object carried, or a re-use step of a payload-carrying "
     "object; distinct = distinct (state text, message text) digests.")
 ASSUMPTIONS = ['observational only: object identity shared between trees is not reported unless it changes a str()']
-MANDATORY = ['edit-inside-carried-story', 'reuse-of-payload-object', 'reuse-after-edit',
+MANDATORY = ['same-object-merged-twice', 'edit-inside-carried-story', 'reuse-of-payload-object', 'reuse-after-edit',
              'carried-by:StoryAppend', 'carried-by:StoryInsert', 'carried-by:StoryReplace',
              'carried-by:EAStoryInsert', 'carried-by:EAStoryReplace', 'carried-by:StorySend']
 
@@ -113,6 +113,17 @@ class World:
         self.check(f'send {kind}')
         return info
 
+    def again(self):
+        """Merge the most recent message object into A a second time (and a fresh copy into A')."""
+        obj, s0, text, kind = self.objs[-1]
+        e1 = _merge(self.a, obj)
+        e2 = _merge(self.a_ref, MosFile.from_string(text))
+        if e1 != e2:
+            self.fails.append(Failure(PROP, f'C13|{kind}|second-merge-of-same-object-differs',
+                                      f'{kind} merged twice in a row: live object raised {e1}, fresh copy raised {e2}'))
+        self.check(f'second merge of the same {kind}')
+        return {'kind': kind}
+
     def advance(self):
         obj, s0, text, kind = self.objs[self.j]
         self.j += 1
@@ -136,6 +147,9 @@ def rejudge(case):
         for op in case['ops']:
             if op[0] == 'send':
                 w.send(op[1])
+            elif op[0] == 'again':
+                if w.objs:
+                    w.again()
             elif w.j < len(w.objs):
                 w.advance()
     seen, out = set(), []
@@ -199,6 +213,15 @@ def shard(args):
             if info['edit_inside_carried']:
                 classes += ['edit-inside-carried-story', f"carried-by:{info['carried_by']}"]
             self._record(classes, info['edit_inside_carried'], h64(str(self.w.a), text))
+
+        @precondition(lambda self: self.w is not None and len(self.w.objs) > 0)
+        @rule()
+        def again(self):
+            with warnings.catch_warnings():
+                warnings.simplefilter('ignore')
+                self.ops.append(['again'])
+                info = self.w.again()
+            self._record(['same-object-merged-twice', info['kind']], True, h64(str(self.w.a), 'again', len(self.ops)))
 
         @precondition(lambda self: self.w is not None and self.w.j < len(self.w.objs))
         @rule()
